@@ -526,7 +526,19 @@ func checkNames(p *Prog, r *Report, chk *ssa.Function) {
 				}
 			case *ssa.Lookup:
 				if key, ok := tagGetOf(x.Index); ok && key == "json" {
-					kinds = append(kinds, "dup")
+					// the set that is consulted must be filled with the very same key
+					// (the json tag), in the same function
+					filled := false
+					eachInstr(x.Parent(), func(i2 ssa.Instruction) {
+						if mu, ok := i2.(*ssa.MapUpdate); ok && mu.Map == x.X {
+							if k2, ok := tagGetOf(mu.Key); ok && k2 == "json" && (mu.Key == x.Index || sameTagRead(mu.Key, x.Index)) {
+								filled = true
+							}
+						}
+					})
+					if filled {
+						kinds = append(kinds, "dup")
+					}
 				}
 			case *ssa.Extract:
 				walk(x.Tuple, truth)
@@ -1453,4 +1465,20 @@ func phaseOfStructInspector(p *Prog, f *ssa.Function) bool {
 		}
 	}
 	return true
+}
+
+// sameTagRead: two values are both Tag.Get(<same constant key>) of the same
+// struct field value.
+func sameTagRead(a, b ssa.Value) bool {
+	ca, _ := callOf(a)
+	cb, _ := callOf(b)
+	if ca == nil || cb == nil || len(ca.Common().Args) != 2 || len(cb.Common().Args) != 2 {
+		return false
+	}
+	ka, ok1 := constString(ca.Common().Args[1])
+	kb, ok2 := constString(cb.Common().Args[1])
+	if !ok1 || !ok2 || ka != kb {
+		return false
+	}
+	return pathOf(ca.Common().Args[0], 0) == pathOf(cb.Common().Args[0], 0)
 }
